@@ -16,11 +16,16 @@ pub fn sections(ctx: &Ctx) -> Vec<(&'static str, u64)> {
         Tier::Quick => (300, 600, 150, 100),
         Tier::Thorough => (8_000, 24_000, 4_000, 4_000),
     };
+    let split = match ctx.tier {
+        Tier::Quick => 20,
+        Tier::Thorough => 400,
+    };
     vec![
         ("plain", plain * ctx.scale),
         ("hostile", hostile * ctx.scale),
         ("compile", compile * ctx.scale),
         ("defplace", defplace * ctx.scale),
+        ("split", split * ctx.scale),
     ]
 }
 
@@ -172,6 +177,19 @@ pub fn cases(ctx: &Ctx, section: &str, unit: u64) -> Vec<Case> {
                 ));
             }
             "defplace" => out.push(defplace_case(&mut rng, i)),
+            "split" => {
+                // a whole generated program (functions, overloads, templates, resources,
+                // pipelines) as one file; the oracle cuts it into included files
+                let (label, fs, task) = crate::w2::scenario(&mut rng.sub("w2"), i);
+                out.push(Case {
+                    check: "C12".into(),
+                    kind: "split".into(),
+                    label: format!("{label}+split"),
+                    fss: vec![fs],
+                    execs: vec![ExecSpec::single(key(&mut rng), STACK_MAIN, task)],
+                    params: Json::obj().with("split_seed", Json::u(rng.next_u64() >> 12)),
+                });
+            }
             _ => {}
         }
     }
@@ -344,6 +362,7 @@ pub fn judge(case: &Case, rep: &mut Report) {
     match case.kind.as_str() {
         "refine" => refine(case, rep),
         "defplace" => defplace(case, rep),
+        "split" => split(case, rep),
         _ => {}
     }
 }
@@ -588,6 +607,156 @@ fn defplace(case: &Case, rep: &mut Report) {
                 "{}: defines passed through the API and the same defines as #define lines before the first line differ at {}",
                 case.label,
                 first_difference(&a.text, &b.text)
+            ),
+        ));
+    }
+}
+
+/// "#include is equivalent to pasting the file's contents at that point", at the level of what
+/// compile() returns: a one-file program and the same text cut at top-level line boundaries into
+/// files that include one another must give the same sources, metadata and verdict (and, when
+/// rejected, the same message). The cut is derived here from `split_seed`, never stored.
+fn split(case: &Case, rep: &mut Report) {
+    let ex_a = &case.execs[0];
+    let task_a = &ex_a.threads[0].tasks[0];
+    let Some(src) = case.fss[task_a.fs].files.get(&task_a.entry) else {
+        return;
+    };
+    let digest = scenario_digest(case);
+    rep.scenario_digests.insert(digest);
+    let mut rng = Rng::new(case.params.gu("split_seed")).sub("split");
+    let lines: Vec<&str> = src.split_inclusive('\n').collect();
+    // line indices at which the text is at brace depth 0
+    let mut cuts: Vec<usize> = Vec::new();
+    let mut depth = 0i64;
+    for (i, l) in lines.iter().enumerate() {
+        if depth == 0 && i > 0 {
+            cuts.push(i);
+        }
+        for c in l.chars() {
+            match c {
+                '{' => depth += 1,
+                '}' => depth -= 1,
+                _ => {}
+            }
+        }
+    }
+    if cuts.is_empty() {
+        rep.count("split_not_judged_nothing_to_cut", 1);
+        return;
+    }
+    rng.shuffle(&mut cuts);
+    let k = (rng.range(1, 9) as usize).min(cuts.len());
+    let mut chosen: Vec<usize> = cuts[..k].to_vec();
+    chosen.sort();
+    let mut bounds = vec![0usize];
+    bounds.extend(chosen);
+    bounds.push(lines.len());
+    let chunks: Vec<String> = bounds.windows(2).map(|w| lines[w[0]..w[1]].concat()).collect();
+    // main keeps some chunks inline and includes the others; an included chunk may itself include
+    // the chunk that follows it (at its end), which is the same text order
+    let mut fs_b = FsSpec::new(crate::simfs::Policy::Flat);
+    let mut main = String::new();
+    let mut i = 0;
+    while i < chunks.len() {
+        // (text kept in the entry file is registered before any included file, whatever the
+        // order in which the compiler meets it)
+        if rng.chance(2, 5) {
+            main.push_str(&chunks[i]);
+            if !chunks[i].ends_with('\n') {
+                main.push('\n');
+            }
+            i += 1;
+            continue;
+        }
+        let mut body = chunks[i].clone();
+        if !body.ends_with('\n') {
+            body.push('\n');
+        }
+        let name = format!("part{i}.h");
+        main.push_str(&format!("#include \"{name}\"\n"));
+        let mut j = i + 1;
+        let mut owner = name.clone();
+        let mut pending = body;
+        while j < chunks.len() && rng.chance(1, 3) {
+            let inner = format!("part{j}.h");
+            pending.push_str(&format!("#include \"{inner}\"\n"));
+            fs_b.files.insert(owner, pending);
+            owner = inner;
+            pending = chunks[j].clone();
+            if !pending.ends_with('\n') {
+                pending.push('\n');
+            }
+            j += 1;
+        }
+        fs_b.files.insert(owner, pending);
+        i = j;
+    }
+    fs_b.files.insert(task_a.entry.clone(), main);
+    let mut fss = case.fss.clone();
+    fss.push(fs_b);
+    let mut ex_b = ex_a.clone();
+    ex_b.threads[0].tasks[0].fs = fss.len() - 1;
+
+    let mut rs: Vec<TaskResult> = Vec::new();
+    for ex in [ex_a, &ex_b] {
+        let res = run_exec(ex, &fss);
+        rep.history_digests.insert(res.history_digest);
+        let r = res.results.into_iter().next().unwrap().into_iter().next().unwrap();
+        rep.absorb_task(&r);
+        rs.push(r);
+    }
+    rep.count("programs_cut_into_included_files", 1);
+    rep.count("files_after_the_cut", fss[fss.len() - 1].files.len() as u64);
+    rep.nontrivial.insert(digest);
+    let (a, b) = (&rs[0], &rs[1]);
+    for r in [a, b] {
+        if r.kind == OutcomeKind::Panic {
+            // totality is C08's business; an equal panic on both sides is not a difference
+            if a.kind == b.kind && a.panic_site == b.panic_site {
+                rep.count("split_not_judged_both_panic", 1);
+                return;
+            }
+            rep.findings.push(finding("panic", &r.panic_site, format!("{}: {}", case.label, r.text)));
+            return;
+        }
+    }
+    let message = |r: &TaskResult| -> String {
+        r.text
+            .lines()
+            .find_map(|l| l.find("error: ").map(|p| l[p..].to_string()))
+            .unwrap_or_default()
+    };
+    if a.kind != b.kind {
+        rep.findings.push(finding(
+            "include-vs-paste",
+            &format!("{}/{}", a.kind_name(), b.kind_name()),
+            format!(
+                "{}: one file gives {:?}, the same text cut into included files gives {:?}",
+                case.label,
+                a.text.lines().take(2).collect::<Vec<_>>().join(" | "),
+                b.text.lines().take(2).collect::<Vec<_>>().join(" | ")
+            ),
+        ));
+    } else if a.kind == OutcomeKind::Ok && a.text != b.text {
+        rep.findings.push(finding(
+            "include-vs-paste",
+            "compile-output",
+            format!(
+                "{}: what compile() returns differs between one file and the same text cut into included files at {}",
+                case.label,
+                crate::case::first_difference(&a.text, &b.text)
+            ),
+        ));
+    } else if a.kind == OutcomeKind::Err && message(a) != message(b) {
+        rep.findings.push(finding(
+            "include-vs-paste",
+            "message",
+            format!(
+                "{}: rejected with {:?} as one file and with {:?} when cut into included files",
+                case.label,
+                message(a),
+                message(b)
             ),
         ));
     }
